@@ -33,6 +33,17 @@
 //!      report: a runnable tokio task is scheduled within that window.
 //!  P1  timer ticks at quiescent points, each followed by a full round trip, never drop the link
 //! Wall-clock watchdogs only ever yield INCONCLUSIVE (`watchdog_fired`).
+//!
+//! Not judged (observed, counted as `closed_socket_noticed_only_after_timer_ticks`): a side whose
+//! reads are paused because of its own backlog never notices that its socket was closed (the failed
+//! write wakes nobody, the paused reader never sees EOF); only the ping timeout of
+//! `timer_tick_occurred` ends such a connection. The harness therefore advances the timers while it
+//! waits for the tasks of a connection whose sockets are already closed.
+//!
+//! Parameters (k=v): cases (320 / 16000), msgs (60: scale of per-direction message counts),
+//! long_msgs (2100: messages per direction in the key-rotation cases), watchdog_ms (60000),
+//! stall_ms (20000), probes (20), only_run=<case>, timing=1. Debugging: VERIF_C15N_DEBUG=1,
+//! VERIF_LDK_LOG=1, VERIF_PANIC_TRACE=1.
 
 use bitcoin::secp256k1::PublicKey;
 use lightning::ln::msgs::{DecodeError, Init, LightningError};
@@ -63,6 +74,17 @@ const FRAME_OVH: u64 = 18 + 2 + 16;
 const MAX_BODY: usize = 65533;
 /// Slack for "one more skb" on either side of a loopback connection.
 const SKB_SLACK: u64 = 2 * 65536;
+
+// ---------------------------------------------------------------------------------------------
+// ThreadSanitizer builds only: reports whose two accesses are ordered through the kernel's epoll
+// (tokio allocates a `ScheduledIo`, registers its address as the epoll token, the I/O driver thread
+// gets it back from epoll_wait) are not visible to the sanitizer as ordered. Only tokio's own I/O
+// registration code is suppressed; nothing in lightning or lightning-net-tokio is.
+// ---------------------------------------------------------------------------------------------
+#[no_mangle]
+pub extern "C" fn __tsan_default_suppressions() -> *const std::os::raw::c_char {
+	b"race:tokio::runtime::io::scheduled_io\nrace:tokio::runtime::io::registration_set\nrace:tokio::runtime::io::driver\n\0".as_ptr() as *const std::os::raw::c_char
+}
 
 // ---------------------------------------------------------------------------------------------
 // Panics: recorded globally (they may happen on any runtime thread)
@@ -929,8 +951,7 @@ impl World {
 		})
 	}
 	/// Wait until every link in `live` is handshaken (`handshake`) / has everything delivered.
-	async fn wait(&self, live: &[usize], handshake: bool, p: &Params) -> Wait {
-		let t0 = Instant::now();
+	async fn wait(&self, live: &[usize], handshake: bool, p: &Params, t0: Instant) -> Wait {
 		let panics0 = panics_seen();
 		let mut last: Vec<[((usize, usize, usize), u64, u64); 2]> = live.iter().map(|_| [((0, 0, 0), 0, 0); 2]).collect();
 		let mut since: Vec<[Instant; 2]> = live.iter().map(|_| [t0; 2]).collect();
@@ -972,7 +993,7 @@ impl World {
 				}
 				return Wait::Watchdog;
 			}
-			if std::env::var("VERIF_C15N_DEBUG").is_ok() && t0.elapsed().as_millis() % 2000 == 0 {
+			if t0.elapsed().as_millis() % 2000 == 0 && std::env::var("VERIF_C15N_DEBUG").is_ok() {
 				for &li in live {
 					self.dump(li);
 				}
@@ -1419,7 +1440,8 @@ async fn close_and_check(w: &mut World, cx: &mut Cx<'_>, li: usize, p: &Params, 
 }
 
 /// N6: direction d of link li made no progress for `stall` although nothing withholds it.
-async fn stall_flow(w: &World, cx: &mut Cx<'_>, li: usize, d: usize, p: &Params) -> bool {
+/// Some(true): reported; Some(false): progress resumed; None: the probes did not get through.
+async fn stall_flow(w: &World, cx: &mut Cx<'_>, li: usize, d: usize, p: &Params) -> Option<bool> {
 	let l = &w.links[li];
 	let (s, r) = (l.sender(d), l.receiver(d));
 	let key = || (w.progress(li, d), l.ctl.dirs[d].read_bytes.load(SO), l.ctl.dirs[d].written_bytes.load(SO));
@@ -1440,14 +1462,18 @@ async fn stall_flow(w: &World, cx: &mut Cx<'_>, li: usize, d: usize, p: &Params)
 	let after = key();
 	if ok == p.probes && before == after && !l.ctl.going_down() && !l.ctl.dirs[d].stall_active.load(SO) {
 		let q = lock(&l.ctl.dirs[d].queue).len;
+		let all_released = (if d == 0 { HS_INIT } else { HS_RESP }) + lock(&w.nodes[s].sh.st).sent.get(&(r, l.gen)).map(|v| v.iter().map(|m| FRAME_OVH + m.len as u64).sum::<u64>()).unwrap_or(0);
 		cx.violate(
 			"N6",
-			if q > 0 || after.1 > after.2 { "delivery stalled: the receiver stopped reading although it has no backlog" } else { "delivery stalled: released messages never reach the wire or are never processed" },
+			if q > 0 || after.1 > after.2 || after.1 >= all_released { "delivery stalled: the receiver stopped reading although it has no backlog" } else { "delivery stalled: released messages never reach the wire" },
 			format!("link {} direction node {} -> node {}: (queued, released, delivered) = {:?}, proxy read {} bytes from the sender and wrote {} to the receiver ({} waiting in the proxy); no change for {} ms and during {} sequential probe messages delivered in the opposite direction; the harness imposes no stall", li, s, r, after.0, after.1, after.2, q, p.stall.as_millis(), ok),
 		);
-		return true;
+		return Some(true);
 	}
-	false
+	if ok < p.probes {
+		return None;
+	}
+	Some(false)
 }
 
 // ---------------------------------------------------------------------------------------------
@@ -1462,9 +1488,10 @@ enum Flow {
 
 /// Wait for handshake / delivery on `live`, dealing with faults, stalls and watchdogs.
 async fn wait_h(w: &mut World, cx: &mut Cx<'_>, live: &mut Vec<usize>, handshake: bool, p: &Params, rescue: bool, what: &str) -> Flow {
+	let t0 = Instant::now();
 	loop {
 		dbg(&format!("wait_h: {}", what));
-		let r = w.wait(live, handshake, p).await;
+		let r = w.wait(live, handshake, p, t0).await;
 		dbg(&format!("wait_h: {} -> {:?}", what, r));
 		match r {
 			Wait::Done => return Flow::Ok,
@@ -1475,9 +1502,18 @@ async fn wait_h(w: &mut World, cx: &mut Cx<'_>, live: &mut Vec<usize>, handshake
 			},
 			Wait::Stall { link, d } => {
 				cx.rep.count("stall_probes_run");
-				if stall_flow(w, cx, link, d, p).await {
-					w.links[link].disturbed = Some("stall reported".to_string());
-					return Flow::Stop;
+				match stall_flow(w, cx, link, d, p).await {
+					Some(true) => {
+						w.links[link].disturbed = Some("stall reported".to_string());
+						return Flow::Stop;
+					},
+					Some(false) => {},
+					None => {
+						// the opposite direction does not deliver either: nothing shows that the
+						// runtime is alive and the receiver idle, so this is only a timeout
+						cx.watchdog(&format!("{} (no progress in either direction)", what));
+						return Flow::Stop;
+					},
 				}
 			},
 			Wait::Fault(li) | Wait::LinkDown(li) => {
